@@ -2,9 +2,45 @@
    Property theorems only.  Table obligations are over coq/Gen/Tables.v, regenerated from /repo on
    every run. *)
 From Coq Require Import List NArith Arith Bool String.
-From BS Require Import Base.Sexp Base.Types Base.Lit Model.Heap Model.Edit Model.Build Spec.BuildSpec Gen.Tables.
+From BS Require Import Base.Sexp Base.Types Base.Lit Model.Heap Model.Edit Model.Build Spec.BuildSpec Proofs.BuildRefines Gen.Tables.
 Import ListNotations.
 Open Scope N_scope.
+
+(* ---- the construction machine refines the documented rules ---- *)
+
+(* For every configuration and EVERY event sequence, the code's state machine (open-tag counter,
+   auxiliary stacks, data buffer; Model/Build.v) builds exactly the tree of the documented rules
+   (Spec/BuildSpec.v): same nodes, same parent and payload (name, prefix, attributes, string class,
+   void flag) for each, each child list = the nodes naming that parent in creation order, and
+   nothing but the root is left open at end of input. *)
+Theorem C03_build_refines : forall cfg evs,
+  let b := feed cfg evs in
+  let nodes := spec_run cfg evs in
+  nxt (b_st b) = length nodes /\
+  (forall x, (x < length nodes)%nat ->
+     par (hp (b_st b) x) = sn_parent (nth x nodes (mksn None no_payload)) /\
+     b_pay b x = sn_pay (nth x nodes (mksn None no_payload)) /\
+     kids (hp (b_st b) x) = children_of nodes x) /\
+  b_stack b = [0%nat] /\ b_cur b = Some 0%nat.
+Proof. exact build_refines. Qed.
+Print Assumptions C03_build_refines.
+
+(* an end tag for which no element of that name and prefix is open only flushes pending text *)
+Theorem C03_unknown_end_ignored : forall cfg s name prefix,
+  close_through (s_flush cfg s None) name prefix (s_open (s_flush cfg s None)) = None ->
+  s_step cfg s (EEnd name prefix) = s_flush cfg s None.
+Proof. exact unknown_end_ignored. Qed.
+Print Assumptions C03_unknown_end_ignored.
+
+(* whitespace-only text outside whitespace-preserving elements collapses to one newline or one space *)
+Theorem C03_ws_collapse : forall cfg s cls chunks,
+  s_pending s = chunks -> chunks <> [] ->
+  existsb (fun x => memS (s_name s x) (c_pw cfg)) (s_open s) = false ->
+  all_in (c_spaces cfg) (concat (rev chunks)) = true ->
+  exists c, s_nodes (s_flush cfg s cls) = s_nodes s ++
+     [mksn (hd_error (s_open s)) (mkpl (if memN 10%N (concat (rev chunks)) then [10%N] else [32%N]) None [] c false)].
+Proof. exact ws_collapse. Qed.
+Print Assumptions C03_ws_collapse.
 
 (* ---- tables the construction rules mention ---- *)
 
